@@ -7,25 +7,25 @@
 (* queues and every future).  On the first mismatch the trace stops and the       *)
 (* verdict names what differed.                                                    *)
 EXTENDS RpcProto, Json, IOUtils, TLC
-VARIABLES tid, l, bad
-vars == <<rvars, tid, l, bad>>
+VARIABLES tr, l, bad          \* tr: the trace being replayed (held in the state: the file is read once, not at every step)
+vars == <<rvars, tr, l, bad>>
 Traces == ndJsonDeserialize(IOEnv.TRACE_FILE)
-Init == /\ tid \in 1..Len(Traces)
-        /\ RInit(Traces[tid].net)
+Init == /\ tr \in {Traces[i] : i \in 1..Len(Traces)}
+        /\ RInit(tr.net)
         /\ l = 1 /\ bad = ""
-Ev == Traces[tid].events[l]
+Ev == tr.events[l]
 MethodIdx(c, name) == {i \in 1..Len(Svc(Client(c).svc).methods) : Svc(Client(c).svc).methods[i].name = name}
 Step ==
     CASE Ev.a = "call"  -> \E mi \in MethodIdx(Ev.p, Ev.m) : Call(Ev.p, mi, Ev.x)
       [] Ev.a = "cstep" -> IF inbox[Ev.p] = <<>> THEN UNCHANGED rvars ELSE ClientStep(Ev.p)
       [] Ev.a = "bstep" -> IF inbox[Ev.p] = <<>> THEN UNCHANGED rvars ELSE BrokerStep(Ev.p)
-Next == /\ bad = "" /\ l <= Len(Traces[tid].events)
+Next == /\ bad = "" /\ l <= Len(tr.events)
         /\ Step
         /\ bad' = IF Obs'.inbox # Ev.obs.inbox THEN "receive-queues-differ"
                   ELSE IF Obs'.futs # Ev.obs.futs THEN "futures-differ" ELSE ""
-        /\ l' = l + 1 /\ tid' = tid
+        /\ l' = l + 1 /\ tr' = tr
 Spec == Init /\ [][Next]_vars
-Done == bad # "" \/ l > Len(Traces[tid].events)
-Judge == Done => PrintT("VERDICT " \o ToJson([id |-> Traces[tid].id, clause |-> IF bad = "" THEN "ok" ELSE bad, at |-> l - 1,
+Done == bad # "" \/ l > Len(tr.events)
+Judge == Done => PrintT("VERDICT " \o ToJson([id |-> tr.id, clause |-> IF bad = "" THEN "ok" ELSE bad, at |-> l - 1,
                                               expected |-> Obs]))
 =============================================================================
